@@ -38,10 +38,13 @@ ASSUMPTIONS = [
     "feature/trace/log/table/metadata names come from fixed tables "
     "(harness/c01.py FEATS, TRACES, LOGS, TABLES, META)",
     "balanced histories: every feature receives the same events per round "
-    "(the documented use); a feature sorting before 'trace' is always present",
-    "n-d data are supplied in the dtype of the feature and with one item "
-    "shape per feature; contour lists are non-empty; log lines contain no "
-    "NUL bytes; uint features receive integral in-range values",
+    "(the documented use)",
+    "n-d data have one item shape per feature; image-like features receive "
+    "values of their documented type (uint8, float32-exact); contour lists "
+    "are non-empty (an empty list leaves a contour group the reader cannot "
+    "open: expected-raise case, not generated); log lines contain no NUL "
+    "bytes; uint features receive integral in-range values; n-d data hold "
+    "no NaN",
 ]
 
 FEATS = ["area_um", "aspect", "bright_avg", "contour", "deform", "fl1_max",
@@ -67,7 +70,9 @@ META = [("experiment", "event count", int), ("imaging", "roi size x", int),
         ("fluorescence", "channel count", int),
         ("experiment", "run index", int), ("imaging", "frame rate", float),
         ("setup", "flow rate", float), ("setup", "channel width", float),
-        ("fluorescence", "laser count", int)]
+        ("fluorescence", "laser count", int),
+        # the "user" section is written as it is given
+        ("user", "verif number", int), ("user", "verif ratio", float)]
 UINT32 = {"fl1_max", "fl1_npeaks", "fl2_max", "fl3_max", "index"}
 UINT64 = {"frame"}
 SCALARS = [f for f in FEATS if f not in ("contour", "image", "image_bg",
@@ -80,6 +85,7 @@ CSBS = [1024 ** 2, 4096, 512]
 
 FINDING_LOG = "C01-log-truncated"
 FINDING_DTYPE = "C01-dtype-frozen"
+FINDING_NDDTYPE = "C01-nd-dtype-frozen"
 
 
 def _np():
@@ -146,6 +152,49 @@ def enc_rows(arr, scale=1):
     return rows
 
 
+# dtype codes of arrays / n-d datasets (Model/C01.v:ndt_of): 0 float64,
+# 1 uint8, 2 int16, 3 int32, 4 int64, 5 float32, 6 int64 holding values of a
+# feature whose model entries are multiples of 1/8
+SCALE8 = ("vtmp", "qpi_amp", "qpi_pha")
+NP_DTYPES = {0: "float64", 1: "uint8", 2: "int16", 3: "int32", 4: "int64",
+             5: "float32", 6: "int64"}
+ND_RANGE = {1: (0, 255), 2: (-2 ** 15, 2 ** 15 - 1), 3: (-2 ** 31, 2 ** 31 - 1),
+            4: (-2 ** 63, 2 ** 63 - 1), 6: (-2 ** 63, 2 ** 63 - 1)}
+
+
+def dt_code(v):
+    """the dtype field of an n-d op: a legacy item size or 100 + code"""
+    if v >= 100:
+        return v - 100
+    return {1: 1, 2: 2, 4: 5, 8: 0}[v]
+
+
+def nd_fits(code, v):
+    """mirror of Model/C01.v:fits_nd"""
+    if code == 0:
+        return True
+    if code == 5:
+        return abs(v) <= 8 * 2 ** 24
+    lo, hi = ND_RANGE[code]
+    sc = 8 if code == 6 else 1
+    q = abs(v) // sc * (1 if v >= 0 else -1)
+    return sc * max(lo, min(hi, q)) == v
+
+
+def forced_nd(name):
+    if name in ("image", "image_bg", "mask", "qpi_oah"):
+        return 1
+    if name in ("qpi_amp", "qpi_pha"):
+        return 5
+    return None
+
+
+def h5_dt_code(name, dtype):
+    c = {"float64": 0, "uint8": 1, "int16": 2, "int32": 3, "int64": 4,
+         "float32": 5}.get(str(dtype), 9)
+    return 6 if c == 4 and name in SCALE8 else c
+
+
 def gen_px(kind, seed, i, j):
     base = i * 31 + j * 17 + seed * 7 + (i * j) % 5
     if kind == 0:
@@ -156,6 +205,10 @@ def gen_px(kind, seed, i, j):
         return (base * 13) % 2201 - 200
     if kind == 3:
         return base % 81 - 16
+    if kind == 5:
+        return (base * 131) % 200001 - 100000
+    if kind == 6:
+        return 8 * (base % 50)
     return 1 + seed % 255 if base % 3 == 0 else 0
 
 
@@ -288,7 +341,8 @@ def make_features(np, rng, n, kinds, special, extra, names=None):
                              [e for e in ALLEXTRA if e != "uintmask" or
                               "uintmask" in extra] +
                              (["intscalar"] if "intscalar" in extra else []) +
-                             [e for e in extra if e.startswith("tr:")],
+                             [e for e in extra if e.startswith("tr:")] +
+                             (["lateonly"] if "lateonly" in extra else []),
                              None)
         for name in names:
             if name not in full and name in ("fl1_max", "fl1_npeaks"):
@@ -302,8 +356,15 @@ def make_features(np, rng, n, kinds, special, extra, names=None):
         rng, n, kinds=kinds, special=special,
         nscalars=(len(gen.FLOAT_SCALARS) if kinds is ALLKINDS else None))
     feats = {k: v for k, v in spec["features"].items() if k in FID}
+    if "lateonly" in extra:
+        # only features that sort behind "trace" (or the traces alone): the
+        # event count then comes from the first trace dataset
+        late = {k: v for k, v in feats.items() if k in ("trace", "userdef1",
+                                                        "userdef2")}
+        if "trace" in late:
+            feats = late
     if not any(f in feats for f in ("area_um", "aspect", "bright_avg",
-                                    "deform")):
+                                    "deform", "trace")):
         feats["deform"] = gen.dyadic(rng, n, 0, 80)
     if "index" in extra:
         feats["index"] = np.zeros(n, dtype=np.int64) + 7
@@ -356,10 +417,17 @@ def gen_case(rng, thorough=False):
               if rng.random() < 0.15]
     extra += ["tr:" + t for t in ("fl2_raw", "fl2_median", "fl3_raw")
               if rng.random() < 0.4]
+    if "trace" in kinds and rng.random() < 0.3:
+        extra.append("lateonly")
     if rng.random() < 0.12:
         extra.append("intscalar")
     special = rng.random() < 0.6
     int_first = rng.random() < 0.06      # -> C01-dtype-frozen
+    # n-d data in another dtype than the one frozen by the first array
+    trace_wide = rng.random() < 0.06     # int32 beyond int16 -> C01-nd-dtype-frozen
+    trace_i32 = rng.random() < 0.12      # int32 arrays with int16 values: fine
+    vtmp_intfirst = rng.random() < 0.1   # int64 first, fractions later -> finding
+    trace_i32_first = rng.random() < 0.12  # int32 traces from the start (wide values)
     overlong = rng.random() < 0.08       # -> C01-log-truncated
     nsessions = rng.choice([1, 1, 2, 2, 3, 4])
     total = 0
@@ -418,6 +486,25 @@ def gen_case(rng, thorough=False):
                             o[2] = 1
                             o[3] = [[0, 8 * rng.randint(-3, 90)] for _ in o[3]]
                             break
+                for o in fops:
+                    later = total > 0 or pi > 0
+                    if o[0] == "trace" and trace_i32_first:
+                        o[2] = 103
+                        for ent in o[3]:
+                            if isinstance(ent[1], dict):
+                                ent[1]["gen"][0] = 5
+                    elif o[0] == "trace" and later and (trace_wide or
+                                                        trace_i32):
+                        o[2] = 103
+                        if trace_wide:
+                            for ent in o[3]:
+                                if isinstance(ent[1], dict):
+                                    ent[1]["gen"][0] = 5
+                    if o[0] == "arr" and FEATS[o[1]] == "vtmp" and \
+                            vtmp_intfirst and not later and \
+                            isinstance(o[6], dict):
+                        o[5] = 106
+                        o[6]["gen"][0] = 6
                 # interleave logs, tables, metadata
                 for _ in range(rng.choice([0, 0, 1, 2])):
                     fops.insert(rng.randint(0, len(fops)), rand_side_op(
@@ -443,6 +530,8 @@ def gen_case(rng, thorough=False):
 
 def rand_side_op(rng, overlong):
     r = rng.random()
+    if r < 0.04:
+        return ["log", rng.randrange(len(LOGS)), []]      # a log without lines
     if r < 0.55:
         return ["log", rng.randrange(len(LOGS)),
                 rand_lines(rng, long_first=rng.random() < 0.15,
@@ -467,7 +556,8 @@ def rand_meta(rng, base):
                 v = rng.randint(0, 30)
             else:
                 v = rng.choice([8 * rng.randint(1, 3000), rng.randint(1, 900)])
-            kvs.append([k, v, rng.choice([0, 0, 1])])
+            kvs.append([k, v, 0 if META[k][0] == "user"
+                        else rng.choice([0, 0, 1])])
     if not base and rng.random() < 0.15:
         kvs.append([4, rng.randint(1, 3), 0])
     return kvs
@@ -548,6 +638,8 @@ def run_impl(case, scratch, keep=False):
     hw = None
     errs = []
     exp = Expect()
+    import random as _random
+    form_rng = _random.Random(len(case["ops"]) * 7919 + 13)
     info = dict(calls={}, maxrows=0)
     try:
         for o in case["ops"]:
@@ -579,7 +671,16 @@ def run_impl(case, scratch, keep=False):
                         exp.index += len(data)
                     else:
                         exp.put(exp.feat, name, list(data))
-                    hw.store_feature(name, data)
+                    fr = form_rng.random()
+                    if len(data) == 1 and name != "index" and fr < 0.3:
+                        hw.store_feature(name, data[0])        # a 0-d value
+                        info["forms"] = info.get("forms", 0) + 1
+                    elif name != "index" and fr < 0.45 and \
+                            data.dtype in (np.float64, np.int64):
+                        hw.store_feature(name, data.tolist())  # a list
+                        info["forms"] = info.get("forms", 0) + 1
+                    else:
+                        hw.store_feature(name, data)
                 elif kind == "image":
                     name = FEATS[o[1]]
                     shape = tuple(o[3])
@@ -611,11 +712,11 @@ def run_impl(case, scratch, keep=False):
                     shape, dshape, isz = tuple(o[3]), tuple(o[4]), o[5]
                     rows = expand(o[6])
                     flat = np.array([v for r in rows for v in r])
-                    if name in ("vtmp", "qpi_amp", "qpi_pha"):
-                        arr = (flat / 8).astype(
-                            np.float32 if isz == 4 else np.float64)
+                    code = dt_code(isz)
+                    if name in SCALE8:
+                        arr = (flat / 8).astype(NP_DTYPES[code])
                     else:
-                        arr = flat.astype(np.uint8)
+                        arr = flat.astype(NP_DTYPES[code])
                         if o[2]:
                             arr = arr.astype(bool)
                     arr = arr.reshape(dshape)
@@ -641,13 +742,19 @@ def run_impl(case, scratch, keep=False):
                     info["calls"]["contour"] = info["calls"].get(
                         "contour", 0) + 1
                     exp.put(exp.feat, "contour", data)
-                    hw.store_feature("contour", data)
+                    if len(data) == 1 and form_rng.random() < 0.5:
+                        # a single contour given as a 2-d array
+                        hw.store_feature("contour", data[0])
+                        info["forms"] = info.get("forms", 0) + 1
+                    else:
+                        hw.store_feature("contour", data)
                 elif kind == "trace":
                     data = {}
                     for tr, rows in o[3]:
                         rows = expand(rows)
                         data[TRACES[tr]] = np.array(
-                            rows, dtype=np.int16).reshape(len(rows), o[1][0])
+                            rows, dtype=NP_DTYPES[dt_code(o[2])]).reshape(
+                                len(rows), o[1][0])
                     info["calls"]["trace"] = info["calls"].get("trace", 0) + 1
                     for tr, arr in data.items():
                         if not len(arr):
@@ -657,7 +764,17 @@ def run_impl(case, scratch, keep=False):
                 elif kind == "log":
                     name = LOGS[o[1]]
                     exp.put(exp.logs, name, o[2])
-                    hw.store_log(name, list(o[2]))
+                    fr = form_rng.random()
+                    if len(o[2]) == 1 and fr < 0.3:
+                        hw.store_log(name, o[2][0])            # a str
+                        info["forms"] = info.get("forms", 0) + 1
+                    elif len(o[2]) == 1 and fr < 0.5:
+                        hw.store_log(name, o[2][0].encode())   # bytes
+                        info["forms"] = info.get("forms", 0) + 1
+                    elif fr < 0.65:
+                        hw.store_log(name, [ln.encode() for ln in o[2]])
+                    else:
+                        hw.store_log(name, list(o[2]))
                 elif kind == "table":
                     name = TABLES[o[1]]
                     tab = {COLS[c]: [r[j] / 8 for r in o[3]]
@@ -738,7 +855,8 @@ def observe_raw(np, h5):
             out.append(1)
             for tr in TRACES:
                 if tr in obj:
-                    out += [1] + digest(enc_rows(obj[tr][:]))
+                    out += [1, h5_dt_code("trace", obj[tr].dtype)] + digest(
+                        enc_rows(obj[tr][:]))
                 else:
                     out.append(0)
         elif obj.ndim == 1:
@@ -751,11 +869,11 @@ def observe_raw(np, h5):
         else:
             if name == "mask":
                 rows = enc_rows(H5MaskEvent(obj)[:].astype(np.uint8))
-            elif obj.dtype.kind == "f":
+            elif obj.dtype.kind == "f" or name in SCALE8:
                 rows = enc_rows(obj[:], scale=8)
             else:
                 rows = enc_rows(obj[:])
-            out += [2] + digest(rows)
+            out += [2, h5_dt_code(name, obj.dtype)] + digest(rows)
     out.append(-7)
     lg = h5["logs"] if "logs" in h5 else {}
     for name in LOGS:
@@ -808,6 +926,13 @@ def oracle(np, dclab, path, exp):
         if got != sorted(want_feats):
             fails.append(("features", "features read back %s, written %s" % (
                 got, sorted(want_feats))))
+        if n is not None and not exp.index:
+            # the index feature is then computed: it enumerates as well
+            try:
+                if list(ds["index"][:]) != list(range(1, n + 1)):
+                    fails.append(("index", "computed index is not 1..%d" % n))
+            except BaseException as e:
+                fails.append(("index", "ds['index'] raised %r" % (e,)))
         if n is not None and len(ds) != n:
             fails.append(("len", "len(ds) = %d, %d events were written" % (
                 len(ds), n)))
@@ -828,10 +953,19 @@ def oracle(np, dclab, path, exp):
                 elif name == "contour":
                     d = gen.feature_equal(ds["contour"], events)
                     if d is None:
-                        raw = ds.h5file["events/contour"]
-                        if sorted(raw.keys(), key=int) != [
-                                str(i) for i in range(len(events))]:
-                            d = "contour group keys are not 0..N-1"
+                        cobj = ds["contour"]
+                        nn = len(events)
+                        for kk in sorted({0, nn // 2, nn - 1}):
+                            if not gen.arr_equal(cobj[kk], events[kk]):
+                                d = "contour[%d] differs" % kk
+                            if not gen.arr_equal(cobj[kk - nn], events[kk]):
+                                d = "contour[%d] (negative index) differs" % (
+                                    kk - nn)
+                        it = list(cobj)
+                        if len(it) != nn or any(
+                                not gen.arr_equal(x, y)
+                                for x, y in zip(it, events)):
+                            d = "iterating over the contours differs"
                 else:
                     want = np.array(events)
                     d = gen.feature_equal(ds[name], want)
@@ -940,13 +1074,39 @@ def triggers(case):
     mode = 0
     width = {}
     dtype = {}
+    nddt = {}        # n-d dataset ("trace:<name>" or feature) -> dtype code
     logs = set()
     feats = set()
     for o in case["ops"]:
         if o[0] == "open":
             mode = o[1]
             if mode == 2:
-                width, dtype = {}, {}
+                width, dtype, nddt = {}, {}, {}
+        elif o[0] in ("image", "arr", "trace"):
+            if o[0] == "trace":
+                items = [("trace:" + TRACES[t], expand(rows), dt_code(o[2]),
+                          None) for t, rows in o[3]]
+                if mode == 1:
+                    for key, _, _, _ in items:
+                        nddt.pop(key, None)
+            else:
+                name = FEATS[o[1]]
+                rows = expand(o[5] if o[0] == "image" else o[6])
+                code = dt_code(o[4] if o[0] == "image" else o[5])
+                if name == "mask" and o[2]:
+                    rows = [[v * 255 for v in r] for r in rows]
+                items = [(name, rows, code, forced_nd(name))]
+                if mode == 1:
+                    nddt.pop(name, None)
+            for key, rows, code, forced in items:
+                if not rows:
+                    break
+                frozen = key in nddt
+                dt = nddt.setdefault(key, forced if forced is not None
+                                     else code)
+                if frozen and forced is None and any(
+                        not nd_fits(dt, v) for r in rows for v in r):
+                    feats.add(key.split(":")[0])
         elif o[0] == "log":
             name = LOGS[o[1]]
             lens = [len(s.encode()) for s in o[2]]
@@ -974,7 +1134,8 @@ def classify(case, key):
     if key.startswith("log:") and key[4:] in logs:
         return FINDING_LOG
     if key.startswith("feature:") and key[8:] in feats:
-        return FINDING_DTYPE
+        return FINDING_NDDTYPE if key[8:] in ("trace", "vtmp") \
+            else FINDING_DTYPE
     return None
 
 
@@ -1005,15 +1166,16 @@ def render_op(o):
             common.clist(["(%s, %s)" % (common.zlit(t), common.zlit(v))
                           for t, v in o[3]]))
     if k == "image":
-        return "OImage %d %s %s %d %s" % (o[1], common.blit(o[2]), zl(o[3]),
-                                          o[4], zll(o[5]))
+        return "OImage %d %s %s (ndt_of %d) %s" % (
+            o[1], common.blit(o[2]), zl(o[3]), dt_code(o[4]), zll(o[5]))
     if k == "arr":
-        return "OArr %d %s %s %s %d (concat %s)" % (
-            o[1], common.blit(o[2]), zl(o[3]), zl(o[4]), o[5], zll(o[6]))
+        return "OArr %d %s %s %s (ndt_of %d) (concat %s)" % (
+            o[1], common.blit(o[2]), zl(o[3]), zl(o[4]), dt_code(o[5]),
+            zll(o[6]))
     if k == "contour":
         return "OContour %s" % zll(o[1])
     if k == "trace":
-        return "OTrace %s %d %s" % (zl(o[1]), o[2], common.clist(
+        return "OTrace %s (ndt_of %d) %s" % (zl(o[1]), dt_code(o[2]), common.clist(
             ["(%d, %s)" % (tr, zll(rows)) for tr, rows in o[3]]))
     if k == "log":
         return "OLog %d %s" % (o[1], zll([list(s.encode()) for s in o[2]]))
@@ -1110,6 +1272,8 @@ def run(run):
             run.count("op:" + o[0] + (":%s" % MODES[o[1]] if o[0] == "open"
                                       else ""))
         run.count("single-event-form", info.get("single", 0))
+        run.count("argument-forms(0-d, list, str, bytes, 2-d contour)",
+                  info.get("forms", 0))
         for o in c["ops"]:
             if o[0] == "table" and len(o) > 4 and o[4]:
                 run.count("table:recarray")
